@@ -237,7 +237,7 @@ fn c05_t_spsc_send_batch_vs_recvs() {
 /// recv_batch blocked on empty; a send lands anywhere.
 #[kani::proof]
 #[kani::unwind(5)]
-fn c05_t_spsc_recv_batch_vs_send() {
+fn c05_x_spsc_recv_batch_vs_send() {
   setup!(2, 0, tx, rx);
   sched::install(a_send7, 1, 1);
   sched::set_stuck_is_bug(true);
